@@ -309,14 +309,14 @@ func rulesC14(p *Prog, r *Report) {
 					args := callArgs(o.Call)
 					if len(args) >= 2 {
 						for _, o2 := range p.Origins(args[1]) {
-							parts = append(parts, o2.String())
+							parts = append(parts, p.UpStrings(o2, 0)...)
 						}
 						continue
 					}
 				}
-				parts = append(parts, o.String())
+				parts = append(parts, p.UpStrings(o, 0)...)
 			}
-			sort.Strings(parts)
+			parts = uniq(parts)
 			return strings.Join(parts, "|")
 		}
 		r146mods := map[string]bool{"vault": true, "locker": true, "lend": true, "liquidation": true, "liquidationsV2": true}
@@ -388,7 +388,7 @@ func rulesC14(p *Prog, r *Report) {
 						}
 						isRec := func(v ssa.Value) bool {
 							t, fld, _, ok := fieldRead(v)
-							return ok && appField[t] == fld && loaded[t]
+							return ok && appField[t] == fld && (loaded[t] || fn != f)
 						}
 						var other ssa.Value
 						switch {
